@@ -59,13 +59,24 @@ def floors(tier):
     return {'histories_checked': 800, 'len:templates': 25, 'wrong_count_calls': 150, 'fill_checks': 400}
 
 
-def instantiate(tmpl):
+def instantiate(tmpl, mixed=False):
+    """(text with ?, the same text with the values written inline, values).  mixed: unique values of several types -
+    digit-only strings (with a leading zero, with a non-decimal digit), plain strings, floats, negative numbers."""
     n = tmpl.count('{P}')
     q = tmpl.replace('{P}', '?')
-    vals = [1001 + i for i in range(n)]
+    if not mixed:
+        vals = [1001 + i for i in range(n)]
+        lits = [str(x) for x in vals]
+    else:
+        vals, lits = [], []
+        for i in range(n):
+            k = i % 6
+            x = [f'0{2001 + i}', 3001.5 + i, f's{i}x', f'{4001 + i}', 5001 + i, f'{i}\u00b2'][k]
+            vals.append(x)
+            lits.append("'" + x + "'" if isinstance(x, str) else str(x))
     v = tmpl
-    for x in vals:
-        v = v.replace('{P}', str(x), 1)
+    for lit in lits:
+        v = v.replace('{P}', lit, 1)
     return q, v, vals
 
 
@@ -197,8 +208,9 @@ def run_shard(ctx):
     histories = ['plain', 'plain', 'too-few', 'too-many', 'prepare-twice', 'second-execute']
     idx = -1
     for ci, (label, tmpl) in enumerate(cases):
-        text_q, text_v, vals = instantiate(tmpl)
-        for h in (histories if label != 'composed' else [histories[ci % len(histories)], 'plain']):
+        for hi, h in enumerate(histories if label != 'composed' else [histories[ci % len(histories)], 'plain']):
+            # the second plain run binds values of mixed types
+            text_q, text_v, vals = instantiate(tmpl, mixed=(h == 'plain' and hi == 1))
             idx += 1
             if not ctx.mine(idx):
                 continue
@@ -227,6 +239,7 @@ def run_shard(ctx):
                 acc.fail(sig, det)
             if not fails and outcome == 'checked' and len(acc.samples) < 5 and idx % 7 == 0:
                 acc.sample({'text': text_q, 'values': vals, 'history': h, 'plan_equals_inline_plan': True})
+        text_q, text_v, vals = instantiate(tmpl, mixed=(ci % 2 == 1))
         # the two halves separately
         if ctx.mine(ci):
             try:
